@@ -62,3 +62,18 @@ Theorem C07_loops_sound : forall b db, valid b = true -> forall loop, In loop (e
     (forall s, In s loop -> interior_free b s).
 Proof. exact loops_sound. Qed.
 Print Assumptions C07_loops_sound.
+
+(* ------------------------------------------------------------------ completeness *)
+From RV Require Import Proofs.C07Complete Proofs.C07Cover.
+
+(* every pair enclosing only unpaired nucleotides is reported as a hairpin (with C07_hairpins_sound: exactly those) *)
+Theorem C07_hairpins_complete : forall b, valid b = true -> forall db i j, 1 <= i -> i < j -> pair_at b i = j ->
+    (forall k, i < k < j -> pair_at b k = 0) -> In (strand_of (slice b (i - 1) j) db) (el_hairpins (elements b db)).
+Proof. exact hairpins_complete. Qed.
+Print Assumptions C07_hairpins_complete.
+
+(* every unpaired nucleotide of a structure with at least one pair lies inside a single strand, a hairpin or a loop strand *)
+Theorem C07_unpaired_covered : forall b, valid b = true -> forall db, stems b <> [] ->
+    forall k, 1 <= k <= length b -> pair_at b k = 0 -> covered (elements b db) k.
+Proof. exact unpaired_covered. Qed.
+Print Assumptions C07_unpaired_covered.
